@@ -142,7 +142,7 @@ theorem init_binds_method (tbl : List SealRec) (inst : Inst) (who : Ident) (m : 
 
 -- a second exchange method "n" on the example instance; the cursor minted by "m" is refused there
 -- with nothing run, and accepted (with its callbacks) at "m"
-def exInst2 : Inst := { exInst with methods := [⟨[109], .exchange, .exchange⟩, ⟨[110], .exchange, .exchange⟩, ⟨[112], .producer, .producer⟩] }
+def exInst2 : Inst := { exInst with methods := [⟨[109], .exchange, .exchange, []⟩, ⟨[110], .exchange, .exchange, []⟩, ⟨[112], .producer, .producer, []⟩] }
 
 example : exchange C12.exTbl exInst2 { exReq with method := [110] } = (exInst2, refuse 400 .wrongMethod) ∧
     exchange C12.exTbl exInst2 { exReq with method := [112] } = (exInst2, refuse 400 .wrongMethod) ∧
@@ -154,6 +154,6 @@ example : exchange C12.exTbl exInst2 { exReq with method := [110] } = (exInst2, 
 def C15_exLateTok : Bytes := [66, 103, 77, 68, 65, 119, 77, 68, 65, 119, 77, 68, 65, 119, 77, 68, 65, 119, 77, 68, 65, 119, 77, 68, 65, 119, 77, 68, 65, 119, 77, 68, 65, 119, 107, 74, 67, 81, 107, 74, 67, 81, 107, 74, 67, 81, 107, 74, 67, 81, 107, 74, 67, 81, 107, 61]
 def exMisfit : SealRec := ⟨exKey, List.replicate 24 3, cursorAad anon, exCt, .cursor { exCursor with method := [112] }⟩
 example : (exchange (exMisfit :: C12.exTbl) exInst2
-    ⟨anon, [112], some C15_exLateTok, some exCallTok, false, none, 130000⟩).2 = refuse 400 .wrongMethod := by decide
+    ⟨anon, [112], some C15_exLateTok, some exCallTok, false, none, 130000, []⟩).2 = refuse 400 .wrongMethod := by decide
 
 end Vgi.Props.C14
